@@ -149,6 +149,11 @@ def c01(ctx, api):
     tv = api['run_trace_validation'](ctx, 'traces', 6000 if thorough else 1500, ctx['seed'])
     acc.add_traces('trace validation: the compliance corpus and randomly grown expressions/documents run through the real Search, '
                    'every recorded outcome checked by TLC against Admissible(expr, doc)', tv)
+    st, summ = api['run_tlc_to_harness'](ctx, 'tsweep', 'GenTSweep', cfg(constants={'Emit': 'TRUE', 'Prop': '"C01"', 'To': 9000 if thorough else 1100}),
+                                         timeout=1500, harness_args=['-timeout', '600s'])
+    acc.add('GenTSweep: 69 template families (document, expression and expected value with REP / IDX / NUM holes) instantiated for every n = 0..%d: '
+            'a 2/3/4-byte character after n letters under 17 string operations, n distinct variables / fields / arguments / hash keys, '
+            'arrays of n elements; checked against the full specification for 4 values of n (TemplateLemma)' % (9000 if thorough else 1100), st, summ)
     return acc.result(RULE_PINNED, extra={'bounds': {'bfs_depth': depth, 'pool_documents': 15}})
 
 
@@ -221,6 +226,11 @@ def c12(ctx, api):
             st, summ)
     st, summ = api['run_tlc_to_harness'](ctx, 'align', 'GenAlign', cfg(constants={'Emit': 'TRUE', 'Prop': '"C12"', 'MaxK': 34 if thorough else 26}), timeout=1500)
     acc.add('GenAlign: slices (and other position-sensitive operations) on strings with one 2/3/4-byte character after k = 0..%d ASCII letters' % (34 if thorough else 26), st, summ)
+    st, summ = api['run_tlc_to_harness'](ctx, 'tsweep', 'GenTSweep', cfg(constants={'Emit': 'TRUE', 'Prop': '"C12"', 'To': 9000 if thorough else 1100}),
+                                         timeout=1500, harness_args=['-timeout', '600s'])
+    acc.add('GenTSweep: 69 template families (document, expression and expected value with REP / IDX / NUM holes) instantiated for every n = 0..%d: '
+            'a 2/3/4-byte character after n letters under 17 string operations, n distinct variables / fields / arguments / hash keys, '
+            'arrays of n elements; checked against the full specification for 4 values of n (TemplateLemma)' % (9000 if thorough else 1100), st, summ)
     return acc.result(RULE_PINNED, extra={'bounds': {'max_length': maxn}})
 
 
@@ -264,6 +274,11 @@ def c19(ctx, api):
     finally:
         ctx['harness_env'] = {}
     acc.add('let nesting 64 .. 8192 and 100,000 levels deep: shadowing ends with the inner let, chains of re-bindings, no leak to a sibling', st, summ)
+    st, summ = api['run_tlc_to_harness'](ctx, 'tsweep', 'GenTSweep', cfg(constants={'Emit': 'TRUE', 'Prop': '"C19"', 'To': 9000 if thorough else 1100}),
+                                         timeout=1500, harness_args=['-timeout', '600s'])
+    acc.add('GenTSweep: 69 template families (document, expression and expected value with REP / IDX / NUM holes) instantiated for every n = 0..%d: '
+            'a 2/3/4-byte character after n letters under 17 string operations, n distinct variables / fields / arguments / hash keys, '
+            'arrays of n elements; checked against the full specification for 4 values of n (TemplateLemma)' % (9000 if thorough else 1100), st, summ)
     return acc.result(RULE_PINNED, extra={'model_checks': ['EnvEqualsSubstitution', 'Parses', 'WrappedNestLemma']})
 
 
@@ -313,6 +328,11 @@ def c11(ctx, api):
                                          harness_args=['-timeout', '60s'])
     acc.add('GenBigStr: sort / sort_by / max / min / reverse on %s strings with leading characters of 1-4 bytes in pseudo-random order; '
             'the expected array is a closed form checked against the specification sort for n = 10, 20, 30' % sizes, st, summ)
+    st, summ = api['run_tlc_to_harness'](ctx, 'tsweep', 'GenTSweep', cfg(constants={'Emit': 'TRUE', 'Prop': '"C11"', 'To': 9000 if thorough else 1100}),
+                                         timeout=1500, harness_args=['-timeout', '600s'])
+    acc.add('GenTSweep: 69 template families (document, expression and expected value with REP / IDX / NUM holes) instantiated for every n = 0..%d: '
+            'a 2/3/4-byte character after n letters under 17 string operations, n distinct variables / fields / arguments / hash keys, '
+            'arrays of n elements; checked against the full specification for 4 values of n (TemplateLemma)' % (9000 if thorough else 1100), st, summ)
     tv = api['run_trace_validation'](ctx, 'unicode-traces', 3000 if thorough else 800, ctx['seed'], corpus=False, mode='unicode')
     acc.add_traces('trace validation: 30 string operations on random strings of <= 7 code points over 12 symbols (1-4 bytes, combining mark, '
                    'U+FFFD, U+10000), recorded from the real Search and checked by TLC', tv)
